@@ -1621,6 +1621,300 @@ end final
 
 end roundtrip
 
+/-! ### the text layer as an explicit law: token printing and scalar transport
+
+  Between writer and reader sits text: every corner `c` is printed as a token `show c` that the reader
+  parses back (`pc' (show c) = pc c`; distinct corners print differently), and every scalar `x` comes back
+  as `rt x` (print, then `ParseFloat(·, 32)`).  The reader commutes with any such transport. -/
+
+section transport
+variable {τ τ' α β : Type} [DecidableEq τ] [DecidableEq τ']
+
+def mapLine (ft : τ → τ') (fs : α → β) : Line τ α → Line τ' β
+  | .v p => .v (V3.map fs p)
+  | .vt p => .vt (V2.map fs p)
+  | .vn p => .vn (V3.map fs p)
+  | .f a b c => .f (ft a) (ft b) (ft c)
+  | .g n => .g n
+  | .usemtl n => .usemtl n
+  | .mtllib fs' => .mtllib fs'
+  | .other t => .other t
+  | .bad e => .bad e
+
+def mapGroup (ft : τ → τ') (fs : α → β) (g : Group τ α) : Group τ' β :=
+  { name := g.name, toks := g.toks.map ft, tris := g.tris, verts := g.verts.map (V3.map fs),
+    normals := g.normals.map (V3.map fs), uvs := g.uvs.map (V2.map fs), mats := g.mats,
+    ftoks := g.ftoks.map fun f => (ft f.1, ft f.2.1, ft f.2.2) }
+
+def mapState (ft : τ → τ') (fs : α → β) (s : RState τ α) : RState τ' β :=
+  { pv := s.pv.map (V3.map fs), pn := s.pn.map (V3.map fs), pt := s.pt.map (V2.map fs), libs := s.libs,
+    since := s.since, inEffect := s.inEffect, done := s.done.map (mapGroup ft fs), cur := mapGroup ft fs s.cur }
+
+theorem idxOf_map_aux (ft : τ → τ') (hinj : ∀ a b, ft a = ft b → a = b) (t : τ) :
+    ∀ l : List τ, (l.map ft).idxOf (ft t) = l.idxOf t
+  | [] => rfl
+  | a :: l => by
+    by_cases e : a = t
+    · subst e; simp [List.idxOf_cons]
+    · have e' : ft a ≠ ft t := fun h => e (hinj _ _ h)
+      have hb : (a == t) = false := by simpa using e
+      have hb' : (ft a == ft t) = false := by simpa using e'
+      simp [List.idxOf_cons, hb, hb', idxOf_map_aux ft hinj t l]
+
+theorem mem_map_inj_aux (ft : τ → τ') (hinj : ∀ a b, ft a = ft b → a = b) (t : τ) (l : List τ) :
+    ft t ∈ l.map ft ↔ t ∈ l := by
+  constructor
+  · intro h
+    obtain ⟨a, ha, e⟩ := List.mem_map.1 h
+    rw [← hinj _ _ e]; exact ha
+  · exact List.mem_map_of_mem
+
+theorem addCorner_map_aux (pc : τ → Except Err Corner) (pc' : τ' → Except Err Corner) (ft : τ → τ') (fs : α → β)
+    (hinj : ∀ a b, ft a = ft b → a = b) (hpc : ∀ t, pc' (ft t) = pc t) (s : RState τ α) (g : Group τ α) (t : τ) :
+    addCorner pc' (mapState ft fs s) (mapGroup ft fs g) (ft t) =
+      (match addCorner pc s g t with
+       | .ok (p, g') => .ok (p, mapGroup ft fs g')
+       | .error e => .error e) := by
+  unfold addCorner
+  by_cases hm : t ∈ g.toks
+  · have hm' : ft t ∈ (mapGroup ft fs g).toks := (mem_map_inj_aux ft hinj t g.toks).2 hm
+    simp only [hm, hm', ↓reduceIte]
+    simp [mapGroup, idxOf_map_aux ft hinj]
+  · have hm' : ¬ ft t ∈ (mapGroup ft fs g).toks := fun h => hm ((mem_map_inj_aux ft hinj t g.toks).1 h)
+    simp only [hm, hm', ↓reduceIte, hpc]
+    cases pc t with
+    | error e => rfl
+    | ok c =>
+      simp only
+      by_cases hv : c.v = 0
+      · simp [hv]
+      · simp only [hv, ↓reduceIte, mapState, List.getElem?_map]
+        cases s.pv[c.v - 1]? with
+        | none => rfl
+        | some p =>
+          simp only [Option.map_some]
+          cases slot c.vn with
+          | none =>
+            cases slot c.vt with
+            | none => simp [mapGroup]
+            | some j =>
+              simp only [List.getElem?_map]
+              cases s.pt[j]? <;> simp [mapGroup]
+          | some i =>
+            simp only [List.getElem?_map]
+            cases s.pn[i]? with
+            | none => simp
+            | some n =>
+              cases slot c.vt with
+              | none => simp [mapGroup]
+              | some j =>
+                simp only [List.getElem?_map]
+                cases s.pt[j]? <;> simp [mapGroup]
+
+theorem step_map_aux (pc : τ → Except Err Corner) (pc' : τ' → Except Err Corner) (ft : τ → τ') (fs : α → β)
+    (hinj : ∀ a b, ft a = ft b → a = b) (hpc : ∀ t, pc' (ft t) = pc t) (s : RState τ α) (l : Line τ α) :
+    step pc' (mapState ft fs s) (mapLine ft fs l) =
+      (match step pc s l with
+       | .ok s' => .ok (mapState ft fs s')
+       | .error e => .error e) := by
+  cases l with
+  | other t => rfl
+  | bad e => rfl
+  | mtllib fs' =>
+    simp only [mapLine, step]
+    split <;> simp [mapState]
+  | v p => simp [mapLine, step, mapState]
+  | vn p => simp [mapLine, step, mapState]
+  | vt p => simp [mapLine, step, mapState]
+  | usemtl name =>
+    simp only [mapLine, step]
+    split
+    · rfl
+    · simp [mapState, mapGroup]; try rfl
+  | g name =>
+    simp only [mapLine, step]
+    have : (mapState ft fs s).cur.tris = s.cur.tris := rfl
+    rw [this]
+    split
+    · simp [mapState, mapGroup]
+    · simp [mapState, mapGroup]
+  | f a b c =>
+    simp only [mapLine, step]
+    have h0 : ({ (mapState ft fs s).cur with mats := carryMats (mapState ft fs s).cur.mats (mapState ft fs s).inEffect } : Group τ' β)
+        = mapGroup ft fs { s.cur with mats := carryMats s.cur.mats s.inEffect } := rfl
+    rw [h0, addCorner_map_aux pc pc' ft fs hinj hpc]
+    cases addCorner pc s { s.cur with mats := carryMats s.cur.mats s.inEffect } a with
+    | error e => rfl
+    | ok r1 =>
+      obtain ⟨p1, g1⟩ := r1
+      simp only
+      rw [addCorner_map_aux pc pc' ft fs hinj hpc]
+      cases addCorner pc s g1 b with
+      | error e => rfl
+      | ok r2 =>
+        obtain ⟨p2, g2⟩ := r2
+        simp only
+        rw [addCorner_map_aux pc pc' ft fs hinj hpc]
+        cases addCorner pc s g2 c with
+        | error e => rfl
+        | ok r3 =>
+          obtain ⟨p3, g3⟩ := r3
+          simp [mapState, mapGroup]
+
+theorem steps_map_aux (pc : τ → Except Err Corner) (pc' : τ' → Except Err Corner) (ft : τ → τ') (fs : α → β)
+    (hinj : ∀ a b, ft a = ft b → a = b) (hpc : ∀ t, pc' (ft t) = pc t) :
+    ∀ (ls : List (Line τ α)) (s : RState τ α),
+    steps pc' (mapState ft fs s) (ls.map (mapLine ft fs)) =
+      (match steps pc s ls with
+       | .ok s' => .ok (mapState ft fs s')
+       | .error e => .error e)
+  | [], s => rfl
+  | l :: ls, s => by
+    simp only [List.map_cons, steps, step_map_aux pc pc' ft fs hinj hpc]
+    cases step pc s l with
+    | error e => rfl
+    | ok s1 => simp only; exact steps_map_aux pc pc' ft fs hinj hpc ls s1
+
+/-- **The reader commutes with the text layer.**  If tokens are transported by an injective `ft` that the
+    second parser undoes (`pc' (ft t) = pc t`) and scalars by any `fs`, then reading the transported lines
+    gives the transported result: same groups, names, triangles, ranges; tables mapped by `fs`. -/
+theorem readObj_transport (pc : τ → Except Err Corner) (pc' : τ' → Except Err Corner) (ft : τ → τ') (fs : α → β)
+    (hinj : ∀ a b, ft a = ft b → a = b) (hpc : ∀ t, pc' (ft t) = pc t) (ls : List (Line τ α)) :
+    readObj pc' (ls.map (mapLine ft fs)) =
+      (match readObj pc ls with
+       | .ok (gs, libs) => .ok (gs.map (mapGroup ft fs), libs)
+       | .error e => .error e) := by
+  unfold readObj
+  have h := steps_map_aux pc pc' ft fs hinj hpc ls {}
+  have h0 : mapState ft fs ({} : RState τ α) = {} := rfl
+  rw [h0] at h
+  rw [h]
+  cases steps pc {} ls with
+  | error e => rfl
+  | ok s => simp [finish, mapState, mapGroup]
+
+
+def mapMesh (fs : α → β) (m : Mesh α) : Mesh β :=
+  ⟨m.idx, m.pos.map (fun l => l.map (V3.map fs)), m.uv.map (fun l => l.map (V2.map fs)),
+   m.nrm.map (fun l => l.map (V3.map fs)), m.mats⟩
+
+theorem toMesh_map_aux (ft : τ → τ') (fs : α → β) (g : Group τ α) :
+    toMesh (mapGroup ft fs g) = ((toMesh g).1, mapMesh fs (toMesh g).2) := by
+  have h1 : ∀ {γ δ : Type} (f : γ → δ) (l : List γ), optOfList (l.map f) = (optOfList l).map (fun l => l.map f) := by
+    intro γ δ f l; cases l <;> simp [optOfList]
+  have h2 : ∀ {γ δ : Type} (f : γ → δ) (n : Nat) (l : List γ),
+      keepIfComplete n (l.map f) = (keepIfComplete n l).map (fun l => l.map f) := by
+    intro γ δ f n l
+    unfold keepIfComplete
+    by_cases h : l ≠ [] ∧ l.length = n
+    · have : l.map f ≠ [] ∧ (l.map f).length = n := by simpa using h
+      simp [h, this]
+    · have : ¬ (l.map f ≠ [] ∧ (l.map f).length = n) := by simpa using h
+      simp [h, this]
+  simp [toMesh, mapGroup, mapMesh, h1, h2]
+
+end transport
+
+section transport2
+variable {α : Type} [DecidableEq α]
+
+theorem attrMatches_map_aux {β : Type} [DecidableEq β] (f : β → β) (idx ridx : List Nat) (src dst : Option (List β))
+    (h : attrMatches id idx ridx src dst = true) :
+    attrMatches f idx ridx src (dst.map fun l => l.map f) = true := by
+  cases src with
+  | none => cases dst with
+    | none => rfl
+    | some b => simp [attrMatches] at h
+  | some a => cases dst with
+    | none => simp [attrMatches] at h
+    | some b =>
+      simp only [attrMatches, Option.map_id_fun, id_eq, Bool.and_eq_true, List.all_eq_true, beq_iff_eq] at h
+      obtain ⟨hall, heq⟩ := h
+      simp only [attrMatches, Option.map_some, Bool.and_eq_true, List.all_eq_true, beq_iff_eq]
+      constructor
+      · intro o ho
+        obtain ⟨i, hi, rfl⟩ := List.mem_map.1 ho
+        have := hall (a[i]?) (List.mem_map.2 ⟨i, hi, rfl⟩)
+        cases h' : a[i]? with
+        | none => simp [h'] at this
+        | some x => rfl
+      · have : ridx.map (fun i => (b.map f)[i]?) = (ridx.map (fun i => b[i]?)).map (Option.map f) := by
+          simp [List.map_map, Function.comp_def]
+        rw [this, heq]
+        simp [List.map_map, Function.comp_def]
+
+theorem meshMatches_map_aux (rt : α → α) (m : Mesh α) (mats : List (Option String × Nat)) (r : Mesh α)
+    (h : MeshMatches id m mats r = true) : MeshMatches rt m mats (mapMesh rt r) = true := by
+  unfold MeshMatches at h ⊢
+  simp only [Bool.and_eq_true] at h ⊢
+  obtain ⟨⟨h1, h2⟩, h3⟩ := h
+  refine ⟨⟨by simpa [mapMesh] using h1, by simpa [mapMesh] using h2⟩, ?_⟩
+  by_cases hi : m.idx = []
+  · simp only [hi, ↓reduceIte, Bool.and_eq_true, beq_iff_eq] at h3 ⊢
+    obtain ⟨⟨a, b⟩, c⟩ := h3
+    simp [mapMesh, a, b, c]
+  · simp only [hi, ↓reduceIte, Bool.and_eq_true] at h3 ⊢
+    obtain ⟨⟨a, b⟩, c⟩ := h3
+    have e3 : (V3.map (id : α → α)) = id := by funext v; cases v; rfl
+    have e2 : (V2.map (id : α → α)) = id := by funext v; cases v; rfl
+    rw [e3] at a c
+    rw [e2] at b
+    exact ⟨⟨attrMatches_map_aux _ _ _ _ _ a, attrMatches_map_aux _ _ _ _ _ b⟩, attrMatches_map_aux _ _ _ _ _ c⟩
+
+theorem roundTripsCarry_map_aux (rt : α → α) : ∀ (ms gs : List (String × Mesh α)) (carry : Option String),
+    RoundTripsCarry id carry ms gs = true →
+    RoundTripsCarry rt carry ms (gs.map fun p => (p.1, mapMesh rt p.2)) = true
+  | [], [], _, _ => rfl
+  | [], _ :: _, _, h => by simp [RoundTripsCarry] at h
+  | _ :: _, [], _, h => by simp [RoundTripsCarry] at h
+  | p :: ms, r :: gs, carry, h => by
+    simp only [RoundTripsCarry, Bool.and_eq_true, List.map_cons] at h ⊢
+    obtain ⟨⟨h1, h2⟩, h3⟩ := h
+    exact ⟨⟨h1, meshMatches_map_aux rt _ _ _ h2⟩, roundTripsCarry_map_aux rt ms gs _ h3⟩
+
+theorem roundTrips_map_aux (rt : α → α) : ∀ (ms gs : List (String × Mesh α)),
+    RoundTrips id ms gs = true → RoundTrips rt ms (gs.map fun p => (p.1, mapMesh rt p.2)) = true
+  | [], [], _ => rfl
+  | [], _ :: _, h => by simp [RoundTrips] at h
+  | _ :: _, [], h => by simp [RoundTrips] at h
+  | p :: ms, r :: gs, h => by
+    have ih := roundTrips_map_aux rt ms gs
+    unfold RoundTrips at h ih ⊢
+    simp only [List.length_cons, List.zip_cons_cons, List.all_cons, Bool.and_eq_true, beq_iff_eq, List.map_cons,
+      List.length_map] at h ih ⊢
+    obtain ⟨hl, ⟨h1, h2⟩, h3⟩ := h
+    have := ih ⟨by omega, h3⟩
+    exact ⟨hl, ⟨h1, meshMatches_map_aux rt _ _ _ h2⟩, this.2⟩
+
+/-- **C05 clause 1 through the text layer, print/parse as an explicit law.**  Let corners be printed by
+    any `show` that the reader's corner parser `pc'` undoes (`pc' (show c) = ok c`) and let every scalar
+    come back from the text as `rt x` (for the real code: shortest decimal, then `ParseFloat(·, 32)` —
+    float32 precision).  Then for every non-empty list of named well-formed triangle meshes, reading the
+    written text succeeds and the result satisfies `RoundTripsCarry rt` — and the strict property
+    predicate `RoundTrips rt` whenever no material-less mesh follows a mesh with ranges. -/
+theorem obj_roundtrip_text {τ' : Type} [DecidableEq τ'] (pc' : τ' → Except Err Corner) (shw : Corner → τ')
+    (rt : α → α) (hshow : ∀ c, pc' (shw c) = .ok c) (matFile : String) (ms : List (String × Mesh α))
+    (hne : ms ≠ []) (hwf : ∀ p ∈ ms, WFMesh p.2) (hnb : NonemptyButLast ms) :
+    ∃ ls gs libs, writeObj matFile ms = .ok ls ∧ readObj pc' (ls.map (mapLine shw rt)) = .ok (gs, libs) ∧
+      RoundTripsCarry rt none ms (gs.map toMesh) = true ∧
+      (NoMatlessAfterMat none ms → RoundTrips rt ms (gs.map toMesh) = true) := by
+  obtain ⟨ls, gs, libs, hw, hr, hc⟩ := obj_roundtrip_carry matFile ms hne hwf hnb
+  have hinj : ∀ a b, shw a = shw b → a = b := by
+    intro a b h
+    have := hshow a
+    rw [h, hshow b] at this
+    cases this; rfl
+  have ht := readObj_transport pcId pc' shw rt hinj hshow ls
+  rw [hr] at ht
+  have hm : (gs.map (mapGroup shw rt)).map toMesh = (gs.map toMesh).map fun p => (p.1, mapMesh rt p.2) := by
+    simp [List.map_map, Function.comp_def, toMesh_map_aux]
+  refine ⟨ls, gs.map (mapGroup shw rt), libs, hw, ht, ?_, ?_⟩
+  · rw [hm]; exact roundTripsCarry_map_aux rt ms _ none hc
+  · intro hmat
+    rw [hm]; exact roundTrips_map_aux rt ms _ (strict_of_carry_aux ms _ none hmat hc)
+
+end transport2
+
 /-! ### the pinned defect: one shared offset for v / vt / vn -/
 
 section shared
